@@ -12,7 +12,7 @@ import vlib
 from fhgen import *
 from props import C01, C02, C03, C04, C05, C11, C12
 
-RULE = ("batteries of C01, C03, C04, C05, C11, C12 (quick shapes) + expression-depth scenarios 62..67 under both "
+RULE = ("batteries of C01, C02, C03, C04, C05, C11, C12 (one script of every kind) + expression-depth scenarios 62..67 and 1..5 nested remember_state under both "
         "policies; per unwinding call / iterator step: allocator calls == 0 under MustNot; line-by-line equality of "
         "the two policies where the storage suffices; distinct = (source battery, op, outcome class)")
 ASSUMPTIONS = ["allocator calls are observed for the thread that unwinds (counting global allocator in the harness)",
@@ -65,15 +65,54 @@ def depth_suite(rng, tier):
         out.append(("depth-%s-%s" % (arch, pres), s))
     return out
 
+def nested_suite(rng, depths=(1, 2, 3, 4, 5)):
+    """CFI programs with d nested DW_CFA_remember_state: gimli keeps the remembered rows on a fixed stack of 4 under
+    MustNot (the current row included: up to 3 remembered rows fit)"""
+    out = []
+    for arch in ("x86", "a64"):
+        R = ARCH_REGS[arch]
+        gran = 8 if arch == "x86" else 16
+        for pres in ("hdr", "eh", "debug"):
+            s = Script(arch, "must")
+            fdes = []
+            for d in depths:
+                rows = [(4 * i, dict(cfa=("r", R["sp"], gran * (i + 1)), fp=("s",), ra=(("o", -8) if arch == "x86" else ("s",))))
+                        for i in range(2 * d + 1)]
+                fdes.append(dict(start=0x1000 + 0x100 * d, len=0x100, rows=rows,
+                                 remember_at=tuple(4 * i for i in range(1, d + 1)),
+                                 restore_at=tuple(4 * i for i in range(d + 1, 2 * d + 1))))
+            s.module_dwarf("M", 0x10000, 0x20000, 0x10000, 0, pres, fdes, rng)
+            s.add("new U"); s.add("add U M"); s.add("newcache C")
+            base = 0x7000
+            s.mem("S", [(a, 0x11100 + 0x100 * ((a >> 3) % 3) + 0x40) for a in range(base, base + 0x200, 8)])
+            for d in depths:
+                for i in range(2 * d + 1):
+                    pc = 0x11000 + 0x100 * d + 4 * i + 1
+                    regs = s.regs_x86(pc, base, base + 0x80) if arch == "x86" else s.regs_a64(M64, 0x11140, base, base + 0x80)
+                    ln = s.add("unwind U C ip %s %s S" % (hx(pc), regs), tag="nested:%s:%s:%d" % (arch, pres, d))
+                    s.meta[ln] = {"rowdepth": d}
+            out.append(("nested-%s-%s" % (arch, pres), s))
+    return out
+
 def generate(rng, tier):
     out = []
     q = "quick"
     n = 2 if tier == "quick" else 6
     srcs = [("c01", C01), ("c02", C02), ("c03", C03), ("c04", C04), ("c05", C05), ("c11", C11), ("c12", C12)]
     for tag, m in srcs:
-        for name, s in m.generate(rng, q)[:n]:
+        # one script of every kind the battery has (architecture, format, stream) before a second of any kind;
+        # hook-level streams (analyze / exec only) make no unwinding calls and are left out
+        seen, chosen, rest = set(), [], []
+        for name, s in m.generate(rng, q):
+            if not any(l.split(" ", 1)[0] in ("unwind", "iter", "trace") for l in s.lines):
+                continue
+            cls = re.sub(r"[-_]?\d+", "", name)
+            (chosen if cls not in seen else rest).append((name, s))
+            seen.add(cls)
+        for name, s in (chosen + rest)[:max(n, min(len(chosen), 6))]:
             out.append(("%s-%s" % (tag, name), repolicy(s, "must")))
     out += [(n_, repolicy(s, "must")) for n_, s in depth_suite(rng, tier)]
+    out += [(n_, repolicy(s, "must")) for n_, s in nested_suite(rng)]
     _pairs[:] = out
     return out
 
@@ -109,7 +148,7 @@ def extra_checks(R, rng, tier):
         for ln in sorted(set(must) | set(may)):
             total += 1
             meta = s_must.meta.get(ln, {}) if isinstance(s_must.meta.get(ln, {}), dict) else {}
-            if meta.get("depth", 0) > 64:
+            if meta.get("depth", 0) > 64 or meta.get("rowdepth", 0) > 3:
                 continue                     # storage does not suffice: the policies may differ (model decides what MustNot returns)
             a, b = strip(must.get(ln)), strip(may.get(ln))
             if a != b:
@@ -124,5 +163,8 @@ def project(script, ln, line):
         return None
     if script.lines[ln - 1].startswith("msproc"):
         return "spec"
+    mm = script.meta.get(ln)
+    if isinstance(mm, dict) and mm.get("rowdepth", 0) > 3:
+        return "beyond the fixed row stack"        # the abstract rows of the model do not carry gimli's remembered-row stack
     line = ALLOCS_RE.sub("", line)
     return vlib.norm(line, keep_alloc=True)
